@@ -246,7 +246,7 @@ Definition run_c16_bfine (args : list sx) : sx :=
     ret (L [ L (map sx_btrace st.(f_calls)); L (map (fun p => sx_N (fst p)) st.(f_pend)) ])
   | _ => None end).
 
-Definition c16_table : list (bytes * (list sx -> sx)) :=
+Definition c16_conc_table : list (bytes * (list sx -> sx)) :=
   c16_seq_table ++
   [ (bs "c16.ballowed", run_c16_ballowed);
     (bs "c16.tallowed", run_c16_tallowed);
